@@ -156,6 +156,7 @@ fn main() {
             "extract" => daemon::cmd_extract(&rest),
             "history" => daemon::cmd_history(&rest),
             "grace" => daemon::cmd_grace(&rest),
+            "refid" => daemon::cmd_refid(&rest),
             "poller" => daemon::cmd_poller(&rest),
             "open" => seg::cmd_open(&rest),
             "snapshot_script" => seg::cmd_snapshot_script(&rest),
@@ -164,6 +165,7 @@ fn main() {
             "abi" => abi::cmd_abi(&rest),
             "recreate" => seg::cmd_recreate(&rest),
             "snapshot_stall" => seg::cmd_snapshot_stall(&rest),
+            "snapshot_busy" => seg::cmd_snapshot_busy(&rest),
             "e2e" => daemon::cmd_e2e(&rest),
             "ping" => "pong".to_string(),
             _ => format!("unknown-command {}", cmd),
